@@ -27,7 +27,7 @@ ASSUMPTIONS = ['the documentation tables of the tree under test are the specific
                'propagate_fft refusing tilt-carrying wavefronts (NotImplementedError) is C09\'s rule, not a table entry']
 EXHAUSTIVE = True
 PLAN = {'quick': {'gen': 8}, 'thorough': {'gen': 16, 'tests': 1}}
-REQUIRED_BUCKETS = ['form:reassigned', 'typed-tilt-class', 'start:none+focal', 'form:mismatch', 'copy-step', 'form:scalar', 'form:disjoint', 'start:none', 'start:pupil', 'start:image', 'len:1', 'len:2', 'len:3', 'random-long',
+REQUIRED_BUCKETS = ['form:scalar+sampling', 'form:other-focal', 'form:reassigned', 'typed-tilt-class', 'start:none+focal', 'form:mismatch', 'copy-step', 'form:scalar', 'form:disjoint', 'start:none', 'start:pupil', 'start:image', 'len:1', 'len:2', 'len:3', 'random-long',
                     'cell:allowed', 'cell:refused', 'propagate:allowed', 'propagate:refused']
 REQUIRED_ANCHORS = ['anchor:_can_mul_ptype', 'anchor:_mul_result_ptype', 'anchor:_propagate_ptype', 'anchor:Image.multiply',
                     'anchor:PType.__eq__']
@@ -114,6 +114,9 @@ def make_plane(lentil, name, w, form='array'):
         return _SHARED[name]
     if form == 'scalar':
         a, ps = 1, None
+    elif form == 'scalar+sampling':
+        # a uniform, unbounded plane (no array at all) that still knows its physical sampling
+        a, ps = 1, (DX if w.pixelscale is None else tuple(float(x) for x in w.pixelscale))
     elif form == 'left':
         a = np.zeros((4, 4)); a[:, :2] = 1
     elif form == 'right':
@@ -132,7 +135,8 @@ def make_plane(lentil, name, w, form='array'):
     if name == 'Plane':
         return lentil.Plane(amplitude=a, pixelscale=ps)
     if name == 'Pupil':
-        return lentil.Pupil(amplitude=a, pixelscale=ps, focal_length=Z)
+        # (a second pupil of another focal length is the normal case of a relay: the product takes the new pupil's focal length)
+        return lentil.Pupil(amplitude=a, pixelscale=ps, focal_length=Z * 1.75 if form == 'other-focal' else Z)
     if name == 'Image':
         return lentil.Image(amplitude=a, pixelscale=ps)
     if name == 'Tilt':
@@ -190,6 +194,10 @@ def run_program(ctx, lentil, start, prog, traces, forms=None):
                     if before != 'none':
                         trace.append((before, sym, 'skip:no-sampling', None))
                         break
+                if before != 'none' and not any(np.ndim(f.data) == 2 for f in w.data):
+                    # a wavefront without any extent (constant fields only) has no samples to transform: outside the table
+                    trace.append((before, sym, 'skip:no-extent', None))
+                    break
                 if sym == 'propagate_dft':
                     out = lentil.propagate_dft(w, DU, shape=4, oversample=1)
                 else:
@@ -240,6 +248,18 @@ def workload(ctx, lentil):
                     # the same program with planes that carry no array data at all (scalar attributes, no pixel scale)
                     ctx.case({'start': start, 'prog': list(prog), 'form': 'scalar'}, ['form:scalar'])
                     run_program(ctx, lentil, start, prog, traces, forms=['scalar'] * L)
+    # the same pairs with array-less planes that carry their own sampling, and with pupils whose focal length differs from the one
+    # the wavefront already carries (relays, pupil -> image -> pupil round trips)
+    k = 0
+    for form in ('scalar+sampling', 'other-focal'):
+        for start in ('none', 'pupil', 'image', 'none:focal'):
+            for L in range(1, 4):
+                for prog in itertools.product(['Plane', 'Pupil', 'Image', 'Tilt', 'propagate_dft', 'propagate_fft'], repeat=L):
+                    k += 1
+                    if k % ctx.nshards != ctx.shard or 'Pupil' not in prog and form == 'other-focal':
+                        continue
+                    ctx.case({'start': start, 'prog': list(prog), 'form': form}, [f'form:{form}'])
+                    run_program(ctx, lentil, start, prog, traces, forms=[form] * L)
     # forbidden and allowed pairs again with a plane whose pixel scale contradicts the wavefront's
     k = 0
     for start in ('pupil', 'image'):
